@@ -318,6 +318,79 @@ fn inject_compare(d: Dialect, inline: &str, sql: &str, vals: Vec<Value>) -> Vec<
     }
 }
 
+/// templates whose values are EXPRESSIONS (`cust_with_expr`, `cust_with_exprs`): every template of a small set x every
+/// ordered pair of value-expression kinds (bound value, column, arithmetic, function call, scalar subquery, CASE, enum
+/// cast - the one the PostgreSQL backend renders in its own way) x 3 backends. The expansion must be the template with
+/// each mark replaced by that backend's own rendering of the expression (taken from `SELECT <expr>`), in both modes.
+fn expr_value_family(rep: &Report) -> u64 {
+    fn a(s: &str) -> Alias {
+        Alias::new(s)
+    }
+    let kinds: Vec<(&str, fn() -> SimpleExpr)> = vec![
+        ("value", || Expr::val(7).into()),
+        ("column", || Expr::col(a("c")).into()),
+        ("arithmetic", || Expr::col(a("c")).add(1)),
+        ("function", || Func::max(Expr::col(a("c"))).into()),
+        ("subquery", || SimpleExpr::SubQuery(None, Box::new(Query::select().expr(Expr::val(3)).to_owned().into_sub_query_statement()))),
+        ("case", || CaseStatement::new().case(Expr::col(a("c")).gt(1), 2).finally(3).into()),
+        ("enum-cast", || Expr::val("big").as_enum(a("size"))),
+        ("enum-cast-nested", || Expr::col(a("c")).eq(Expr::val("big").as_enum(a("size")))),
+    ];
+    let templates: [(&str, &str); 4] = [("? AND ?", "$1 AND $2"), ("f(?, ?)", "f($2, $1)"), ("? || 'a?b' || ?", "$1 || 'a$1b' || $2"), ("?, ?", "$2, $2")];
+    let mut n = 0;
+    for (qt, pt) in templates {
+        for (n1, k1) in &kinds {
+            for (n2, k2) in &kinds {
+                for d in DIALECTS {
+                    n += 1;
+                    let tpl = if d == Dialect::Postgres { pt } else { qt };
+                    if d != Dialect::Postgres && qt == "?, ?" && pt == "$2, $2" {
+                        // the positional form of "use the second value twice" does not exist
+                    }
+                    let RefOut::Pieces(pieces) = expand(d, tpl, 2) else { continue };
+                    let render_sel = |q: &SelectStatement, build: bool| -> Result<String, String> {
+                        catch(|| match (d, build) {
+                            (Dialect::Mysql, false) => q.to_string(MysqlQueryBuilder),
+                            (Dialect::Mysql, true) => q.build(MysqlQueryBuilder).0,
+                            (Dialect::Postgres, false) => q.to_string(PostgresQueryBuilder),
+                            (Dialect::Postgres, true) => q.build(PostgresQueryBuilder).0,
+                            (Dialect::Sqlite, false) => q.to_string(SqliteQueryBuilder),
+                            (Dialect::Sqlite, true) => q.build(SqliteQueryBuilder).0,
+                        })
+                    };
+                    // inline mode only: in build mode the numbering of nested placeholders depends on the surrounding text
+                    let own: Vec<String> = [k1, k2].iter().map(|k| render_sel(Query::select().expr(k()), false).unwrap_or_else(|p| format!("PANIC {p}")).trim_start_matches("SELECT ").to_string()).collect();
+                    let mut want = String::from("SELECT ");
+                    for p in &pieces {
+                        match p {
+                            Piece::Text(t) => want.push_str(t),
+                            Piece::Val(i) => want.push_str(&own[*i]),
+                        }
+                    }
+                    let got = render_sel(Query::select().expr(Expr::cust_with_exprs(tpl, [k1(), k2()])), false).unwrap_or_else(|p| format!("PANIC {p}"));
+                    if got != want {
+                        rep.raw_failures.inc();
+                        rep.violation(Violation {
+                            key: format!("template-expr-values|{}|inline-differs|{}", d.name(), [(n1, &own[0]), (n2, &own[1])].iter().filter(|(_, o)| !got.contains(o.as_str())).map(|(k, _)| k.to_string()).collect::<Vec<_>>().join(";")),
+                            what: format!("{}: cust_with_exprs({tpl:?}, [{n1}, {n2}]) renders {got:?}; the template with each mark replaced by the backend's own rendering of the value is {want:?}", d.name()),
+                            case: json!({"expr_values": true, "dialect": d.name(), "template": tpl, "kinds": [n1, n2]}),
+                        });
+                    }
+                    // one expression through cust_with_expr
+                    let tpl1 = if d == Dialect::Postgres { "g($1)" } else { "g(?)" };
+                    let got1 = render_sel(Query::select().expr(Expr::cust_with_expr(tpl1, k1())), false).unwrap_or_else(|p| format!("PANIC {p}"));
+                    let want1 = format!("SELECT g({})", own[0]);
+                    if got1 != want1 {
+                        rep.raw_failures.inc();
+                        rep.violation(Violation { key: format!("template-expr-values|{}|inline-differs|{n1}", d.name()), what: format!("{}: cust_with_expr({tpl1:?}, {n1}) renders {got1:?}, expected {want1:?}", d.name()), case: json!({"expr_values": true, "dialect": d.name(), "template": tpl1, "kinds": [n1]}) });
+                    }
+                }
+            }
+        }
+    }
+    n
+}
+
 pub fn run(rep: &Arc<Report>) {
     // (2) inject_parameters over the statement state machines
     let depth = if rep.thorough() { 4 } else { 3 };
@@ -328,6 +401,8 @@ pub fn run(rep: &Arc<Report>) {
         let dm = crate::dml::DmlModel { kind, menu: crate::dml::dml_menu(kind, rep.thorough()), checks: vec![Box::new(inject_check_dml)] };
         stmt_states += crate::explore::explore(&dm, depth + 1, u64::MAX, rep).states;
     }
+    let ev = expr_value_family(rep);
+    rep.set("expression_value_template_cases", json!(ev));
     rep.set("statement_states_for_inject_parameters", json!(stmt_states));
     rep.set("inject_parameters_comparisons_on_statements", json!(INJECTED.get()));
     let n = if rep.thorough() { 7 } else { 6 };
@@ -396,6 +471,11 @@ pub fn run(rep: &Arc<Report>) {
 }
 
 pub fn replay(case: &serde_json::Value) -> Option<String> {
+    if case["expr_values"].as_bool() == Some(true) {
+        let rep = Report::new("C11", "quick");
+        expr_value_family(&rep);
+        return rep.find_violation(&format!("template-expr-values|{}|", case["dialect"].as_str().unwrap_or("")));
+    }
     if let Some(model) = case["model"].as_str() {
         let ops: Vec<String> = case["ops"].as_array().map(|a| a.iter().filter_map(|x| x.as_str().map(String::from)).collect()).unwrap_or_default();
         return match model {
